@@ -19,6 +19,17 @@ CLAIMS = {
          "to far deadlines, and catches three spec mutants; the monitor judges the real TimedStore driven directly (I/O and "
          "timer phase, past 0xFFFFFF s) and discovery-level executions; traces are validated against SDTrace.tla",
          "DESIGN.md §7 C09", TECH, TRUST),
+ "C07": ("model_checking",
+         "TLC closes the reachable (session memory x monitor) space of the receive path of spec/SD.tla over senders x channels "
+         "x flag x boundary session ids: the model signals a reboot exactly when Mon_C07 (the rule of the statement, previous "
+         "message of the same key only) expects it, each detection reaching the three components once; the monitor judges the "
+         "real check_received (every ordered pair of boundary symbols, random 16-bit walks) and the real receive path with the "
+         "components wrapped; traces validated against SDTrace.tla", "DESIGN.md §7 C07", TECH, TRUST),
+ "C08": ("model_checking",
+         "TLC walks the complete 2 x 65535-state cycle of one destination and all interleavings of three destinations with a "
+         "small MaxId and empty sends on spec/SD.tla x Mon_C08 (ids 1..MaxId, never 0, flag until the first wrap, empty send "
+         "is a no-op), catching two spec mutants; the monitor judges real send_sd traffic crossing each destination's wrap at "
+         "different moments and real SimpleEventgroup notification rounds", "DESIGN.md §7 C08", TECH, TRUST),
 }
 claimed = sorted(CLAIMS)
 m = {"version": 1, "setup_cmd": "./setup.sh",
